@@ -14,7 +14,8 @@ Record case := {
   c_syncs : list (Z * Z);            (* at each Sync: (ups - downs, pending events) *)
   c_sync_timeouts : N;               (* Syncs at which ups - downs never reached pending *)
   c_gauge : Z;                       (* ups - downs after Stop returned *)
-  c_cnt : list Z                     (* [response_20x; response_errors; send_errors; send_retries; batches_sent; messages_sent] *)
+  c_cnt : list Z;                    (* [response_20x; response_errors; send_errors; send_retries; batches_sent; messages_sent] *)
+  c_burst : list N                   (* ids enqueued by goroutines released together as the first events of new destinations *)
 }.
 
 Definition beh_of (c : case) (k : N) : list resp :=
@@ -76,8 +77,11 @@ Definition monitor (c : case) : codes :=
   let ets := stamps (c_t0 c) (c_ops c) in
   let sent := concat (map o_ids (c_reqs c)) in
   let nover := Z.of_nat (length (filter (fun et => maxEv mon_limits <? esize (fst et)) ets)) in
-  (if existsb (fun et => negb (maxEv mon_limits <? esize (fst et)) && negb (bad_of c (edest (fst et))) &&
-                         negb (mem_N (eid (fst et)) sent)) ets then [10%N] else []) ++
+  let lost := filter (fun et => negb (maxEv mon_limits <? esize (fst et)) && negb (bad_of c (edest (fst et))) &&
+                                negb (mem_N (eid (fst et)) sent)) ets in
+  (if existsb (fun et => negb (mem_N (eid (fst et)) (c_burst c))) lost then [10%N] else []) ++
+  (if existsb (fun et => mem_N (eid (fst et)) (c_burst c)) lost ||
+      existsb (fun k => (1 <? length (filter (N.eqb k) sent))%nat) (c_burst c) then [20%N] else []) ++
   (if has_dup sent then [11%N] else []) ++
   flat_map (req_codes c ets) (c_reqs c) ++
   (if negb (c_gauge c =? 0) || existsb (fun gp => negb (fst gp =? snd gp)) (c_syncs c) || negb (N.eqb (c_sync_timeouts c) 0)
